@@ -91,6 +91,7 @@ def run(c):
         'tear': {'sharpe': num(t['sharpe']), 'maxdd': num(t['max_drawdown']), 'maxdd_pct': num(t['max_drawdown_pct']),
                  'duration': int(t['max_drawdown_duration']), 'dd': series(t['drawdowns']), 'returns': series(t['returns']),
                  'cum': series(t['cum_returns'])},
+        'dd_raw': (lambda r: {'dd': series(r[0]), 'maxdd': num(r[1]), 'duration': int(r[2])})(perf.create_drawdowns(df['Equity'] * c.get('raw_scale', 1.0))),
         'panel': panel,
         'reuse': reuse,
         'json_total': num(j['cum_returns'][-1][1] - 1.0) if j['cum_returns'] else None,
